@@ -366,16 +366,31 @@ def server_level(ctx, rng, hostile_cmds, hostile_handshakes):
 
         witness = connect(0)
         target = connect(1)
+        PRIORS = [None, bytes([cl.COM_STMT_CLOSE]) + struct.pack("<I", 77), bytes([cl.COM_QUERY]) + b"SELECT a FROM t",
+                  bytes([cl.COM_STMT_SEND_LONG_DATA]) + struct.pack("<IH", 77, 0) + b"abc", None, bytes([cl.COM_STMT_PREPARE]) + b"SELECT ?",
+                  bytes([cl.COM_STMT_SEND_LONG_DATA]) + struct.pack("<IH", 1, 0) + b"abc", bytes([cl.COM_STMT_CLOSE]) + struct.pack("<I", 1)]
         tid = 1
         # every hostile payload with the right sequence id; well-formed and hostile payloads with a wrong one
         wrong_seq = [bytes([cl.COM_PING]), bytes([cl.COM_QUERY]) + b"SELECT 1", b"", bytes([cl.COM_QUERY]) + b"x" * 300,
                      bytes([cl.COM_STMT_EXECUTE]) + b"\x01\x00\x00\x00\x00\x01\x00\x00\x00"] + list(hostile_cmds[:: max(1, len(hostile_cmds) // 12)])
-        framed = [(p, 0) for p in hostile_cmds] + [(p, q) for p in wrong_seq for q in (1, 7, 255)]
+        # the empty packet and a bare unknown command byte after every kind of preceding command (consecutive rounds walk PRIORS)
+        framed = [(p, 0) for p in (b"", b"\x7f") for _ in PRIORS]
+        framed += [(p, 0) for p in hostile_cmds] + [(p, q) for p in wrong_seq for q in (1, 7, 255)]
         for payload, seqid in framed:
             n += 1
             if target.blocked_on() == "done":
                 tid += 1
                 target = connect(tid)
+            # what the connection did just before varies: a PING (the in-step probe of the previous round), a command that has no
+            # response at all (COM_STMT_CLOSE / COM_STMT_SEND_LONG_DATA, known and unknown statement), a query, a prepare
+            prior = PRIORS[n % len(PRIORS)]
+            if prior is not None:
+                target.feed(cl.frame(prior, 0))
+                target.take()
+                if target.blocked_on() != "read":
+                    problems.append(dict(kind="stuck", phase="well-formed command before the hostile one", command=list(prior[:16]), state=target.blocked_on()))
+                    target.eof()
+                    continue
             res = guarded(lambda: target.feed(cl.frame(payload, seqid)))
             if res == ("Hang",):
                 problems.append(dict(kind="hang", phase="command", payload=list(payload[:64]), length=len(payload), seq=seqid))
@@ -394,6 +409,8 @@ def server_level(ctx, rng, hostile_cmds, hostile_handshakes):
                 target.eof()
                 continue
             else:
+                if not raw and payload[:1] not in (bytes([cl.COM_STMT_SEND_LONG_DATA]), bytes([cl.COM_STMT_CLOSE])):
+                    problems.append(dict(kind="unanswered", payload=list(payload[:64]), seq=seqid, command_before=list((prior or bytes([cl.COM_PING]))[:16])))
                 if raw and raw[0][1][:1] == b"\xff" and len(raw) != 1:
                     problems.append(dict(kind="more-than-one-packet-with-ERR", payload=list(payload[:64]), seq=seqid, n=len(raw)))
                 if raw and [q for q, _ in raw] != [(1 + i) % 256 for i in range(len(raw))]:
